@@ -283,6 +283,9 @@ func evalC19(tasks []C19Task, mk func(solo []*c19Run) *simrt.Sched) *c19Eval {
 
 func genC19Tasks(g *Gen, seed uint64, idx int64) []C19Task {
 	nt := 2 + g.R.Intn(5)
+	if g.Deep {
+		nt = 2 + g.R.Intn(7)
+	}
 	if g.R.Chance(1, 2) {
 		nt = 2 + g.R.Intn(2)
 	}
@@ -347,7 +350,7 @@ func callSetHash(tasks []C19Task) uint64 {
 }
 
 func (w *Worker) runC19Case(idx int64) {
-	g := &Gen{R: simrt.NewRand(simrt.Mix(w.Seed, uint64(idx), 19))}
+	g := &Gen{R: simrt.NewRand(simrt.Mix(w.Seed, uint64(idx), 19)), Deep: w.Tier == "thorough"}
 	tasks := genC19Tasks(g, w.Seed, idx)
 	if traceOn {
 		b, _ := json.Marshal(tasks)
@@ -367,6 +370,9 @@ func (w *Worker) runC19Case(idx int64) {
 		budget = 1 + g.R.Intn(3)
 	default:
 		budget = 4 + g.R.Intn(5)
+		if g.Deep {
+			budget = 4 + g.R.Intn(13)
+		}
 	}
 	rs := simrt.NewRand(simrt.Mix(w.Seed, uint64(idx), 1901))
 	mk := func(solo []*c19Run) *simrt.Sched {
